@@ -114,6 +114,14 @@ CHECKS = {
         note="patterns/operations are read from the modules (they are the declarations under test); an empty dict counts as set",
         design="DESIGN.md §2 C17",
     ),
+    "C18": dict(
+        level="exploration",
+        technique="exhaustive enumeration of (input file x target format x option set) through the real iodata.__main__.main() and python -m iodata subprocesses, byte comparison with the API path",
+        text="Generated files of every writable format and small corpus files x 13 targets x {-i} x {-o} x {-c} x {-m}; output bytes equal to the API calls' output on success, pre-existing output preserved on pre-flight rejections, "
+        "never success with different content; subprocess cross-section for exit status and stderr.",
+        note="API reference executed without floating-point trapping in the same worker; a CLI failure where the API succeeds is allowed by the statement and only counted",
+        design="DESIGN.md §2 C18",
+    ),
     "C19": dict(
         level="exploration",
         technique="deviation-bounded enumeration (k<=2 quick, k<=4 thorough) over 11 input axes on the real write_input, field-wise parse against independently computed fields",
